@@ -21,7 +21,8 @@ import json, os, re, subprocess, sys
 
 FORBIDDEN = {"malloc", "calloc", "realloc", "free", "alloca", "__builtin_alloca", "__builtin_alloca_with_align", "aligned_alloc", "posix_memalign",
              "memalign", "valloc", "mmap", "munmap", "sbrk", "brk", "strdup", "strndup", "asprintf", "vasprintf", "fopen", "fmemopen", "open_memstream",
-             "__builtin_malloc", "__builtin_calloc", "__builtin_realloc", "__builtin_free", "setjmp", "longjmp"}
+             "__builtin_malloc", "__builtin_calloc", "__builtin_realloc", "__builtin_free", "setjmp", "longjmp", "qsort", "bsearch", "getenv", "fdopen", "tmpfile",
+             "pthread_create", "dlopen", "operator new", "_Znwm", "_Znam"}
 ALLOWED_UNDEF = {"memcmp", "memset", "memmove", "memcpy", "strlen", "printf", "putchar", "puts", "snprintf", "__stack_chk_fail", "_GLOBAL_OFFSET_TABLE_",
                  "__printf_chk", "__snprintf_chk", "__memmove_chk", "__memcpy_chk", "__memset_chk"}
 
@@ -153,6 +154,7 @@ def analyse(repo, outdir, cc, opt, with_print, problems):
         problems.append("%s: frame is not static (variable-size stack object): %s" % (tag, b))
     # nm checks
     data_syms, undef = [], set()
+    other_libc = set()
     for obj in objs:
         for l in run(["nm", obj]).stdout.splitlines():
             f = l.split()
@@ -171,8 +173,8 @@ def analyse(repo, outdir, cc, opt, with_print, problems):
         if u in FORBIDDEN:
             problems.append("%s: the library references the allocator / forbidden symbol %s" % (tag, u))
         elif u not in ALLOWED_UNDEF and u not in defined_anywhere:
-            problems.append("%s: unexpected undefined symbol %s (not in the allowed libc list)" % (tag, u))
-    res = {"config": tag, "undefined": sorted(undef - defined_anywhere), "data_symbols": len(data_syms), "address_taken": sorted(taken)}
+            other_libc.add(u)       # informational: a libc function outside the usual set; only allocators and their kin are violations
+    res = {"config": tag, "undefined": sorted(undef - defined_anywhere), "other_libc": sorted(other_libc), "data_symbols": len(data_syms), "address_taken": sorted(taken)}
     if cc != "gcc":
         return res
     # ---- graph search
@@ -262,7 +264,7 @@ def main():
                 if r: results.append(r)
     summary = {"configurations": len(results), "violations": len(problems), "definition_macro_probe_static_symbols": probe,
                "graphs": [{k: r[k] for k in ("config", "functions", "edges", "edges_searched", "entry_points", "worst_path_stack_bytes", "worst_entry", "address_taken") if k in r} for r in results if "functions" in r],
-               "nm_only": [r["config"] for r in results if "functions" not in r]}
+               "nm_only": [r["config"] for r in results if "functions" not in r], "other_libc_symbols": sorted(set(s for r in results for s in r.get("other_libc", [])))}
     print(json.dumps(summary))
     if problems:
         rep = os.path.join(outdir, "callgraph_violations.txt")
